@@ -33,10 +33,13 @@ Proof. exact writes_infer. Qed.
 Theorem C16_constructor_copy : forall p, items (ctor_copy p) = items p /\ incl (items (ctor_copy p)) (rec (ctor_copy p)).
 Proof. exact ctor_copy_ok. Qed.
 
-(* outside the fragment (known finding C16-j): plain assignment to the field of a shallow copy of the owner is recorded for the original *)
-Theorem C16_refuted_clone_assign :
-  let s := cstep (CAssign WQ [1]) (clone_init [0]) in In 1 (sitems s) /\ ~ In 1 (recs s WQ) /\ In 1 (recs s WP).
-Proof. exact refuted_clone_assign. Qed.
+(* a shallow copy of the owner shares the container: every write through either owner's field is recorded for that owner *)
+Theorem C16_clone_writes : forall o s, match o with
+  | CRead _ => True
+  | CAppend w x => In x (recs (cstep o s) w)
+  | CAssign w vs => incl vs (recs (cstep o s) w)
+  end.
+Proof. exact clone_write_recorded. Qed.
 
 (* non-vacuity: the three formerly erasing writes, and an assignment with repetitions *)
 Example C16_nonvacuous :
@@ -49,4 +52,4 @@ Print Assumptions C16_writes.
 Print Assumptions C16_constructor.
 Print Assumptions C16_inferences.
 Print Assumptions C16_constructor_copy.
-Print Assumptions C16_refuted_clone_assign.
+Print Assumptions C16_clone_writes.
